@@ -252,6 +252,14 @@ def cdf_systems():
     return G
 
 
+def _offdiag_damping(sysd, dyn):
+    """off-diagonal part of B on the dynamic rows: the coupling force that the recurrence treats as an
+    applied force (the per-mode coefficients A, B, Ap, Bp already contain 1/m)"""
+    M, B, K = O.full(sysd["m"], sysd["b"], sysd["k"])
+    Bd = B[np.ix_(dyn, dyn)]
+    return Bd - np.diag(np.diag(Bd))
+
+
 def cdf_fn(name, sysd, order, nt):
     def fn(eng):
         S.set_engine(eng)
@@ -265,7 +273,7 @@ def cdf_fn(name, sysd, order, nt):
         O.NP.sym = False
         ts = ode.SolveCDF(sysd["m"], sysd["b"], sysd["k"], sysd["h"], rf=sysd.get("rf"), order=order)
         pc = ts.pc
-        Co = ts.bo
+        Co = _offdiag_damping(sysd, dyn)      # from the input matrices, not from the solver's stored copy
         O.NP.sym = True
         try:
             sol = ts.tsolve(O.sarr(Fz), O.sarr(d0z), O.sarr(v0z))
@@ -412,7 +420,42 @@ def replay_stability(p):
 
 
 def replay_cdf(p):
-    return False, "cdf relations: replay by recomputation not implemented (kept as inconclusive)"
+    """real SolveCDF on the model's forces / initial conditions: the documented implicit relation with the
+    off-diagonal damping taken from the input matrices"""
+    from pyyeti import ode
+    O.NP.sym = False
+    args = p["args"]
+    if len(args) < 3 or args[0] not in cdf_systems():
+        return False, "cdf-diagonal kernel: no concrete replay"
+    name, order, nt = args[0], args[1], args[2]
+    sysd = cdf_systems()[name]
+    M, B, K = O.full(sysd["m"], sysd["b"], sysd["k"])
+    n = K.shape[0]
+    rf = list(sysd.get("rf") or [])
+    dyn = [i for i in range(n) if i not in rf]
+    mdl = p["model"]
+    g = lambda k: float(Fraction(mdl.get(k, 0) or 0))
+    F = np.array([[g("F_%d_%d" % (i, j)) for j in range(nt)] for i in range(n)])
+    d0 = np.array([g("d0_%d" % i) for i in range(n)])
+    v0 = np.array([g("v0_%d" % i) for i in range(n)])
+    if not (F.any() or d0.any() or v0.any()):
+        F = np.arange(1.0, n * nt + 1).reshape(n, nt) / (n * nt)
+    ts = ode.SolveCDF(sysd["m"], sysd["b"], sysd["k"], sysd["h"], rf=sysd.get("rf"), order=order)
+    sol = ts.tsolve(F, d0, v0)
+    pc = ts.pc
+    Co = _offdiag_damping(sysd, dyn)
+    worst = 0.0
+    for j in range(nt - 1):
+        f0 = F[dyn, j]
+        f1 = F[dyn, j + 1] if order == 1 else F[dyn, j]
+        d_, v_, v1 = sol.d[dyn, j], sol.v[dyn, j], sol.v[dyn, j + 1]
+        dn = pc.F * d_ + pc.G * v_ + pc.A * (f0 - Co @ v_) + pc.B * (f1 - Co @ v1)
+        vn = pc.Fp * d_ + pc.Gp * v_ + pc.Ap * (f0 - Co @ v_) + pc.Bp * (f1 - Co @ v1)
+        sc = max(np.abs(sol.d).max(), np.abs(sol.v).max() * sysd["h"], 1e-12)
+        worst = max(worst, np.abs(sol.d[dyn, j + 1] - dn).max() / sc, np.abs(sol.v[dyn, j + 1] - vn).max() / max(np.abs(sol.v).max(), 1e-12))
+    if worst > 1e-7:
+        return True, "SolveCDF system %s order %d: the history violates the documented implicit off-diagonal-damping relation by %.3e (relative)" % (name, order, worst)
+    return False, "SolveCDF satisfies its documented relation on the real code"
 
 
 REPLAY = {"newmark": replay_newmark, "stability": replay_stability, "stability0": replay_stability, "cdf": replay_cdf, "cdfdiag": replay_cdf}
